@@ -793,11 +793,22 @@ func (r *vRunner) exec(op vOp, src func() (vOp, bool)) {
 		if strings.HasPrefix(cls, "err:other:") && strings.Contains(cls, vSvcDown) && !strings.Contains(cls, vSvc+")") {
 			cls = "err:other-service-down"
 		}
-		if w.otherAdds != 0 {
-			r.t.Fatalf("pollall: the other list had news (%d)", w.otherAdds)
-		}
+		op.Added += w.otherAdds // expected 0 (copied just before); whatever happens is for the comparison / oracle to judge
 		op.Order = w.addOrder
 		r.emit(op, w.observe(cls, op.Now))
+	case "restartS", "restartC":
+		// the node stops and starts again on the SAME database (Configure + Start as at boot): nothing persistent may change
+		if len(w.delayed) > 0 {
+			r.t.Fatalf("%s while a response is in flight", op.Op)
+		}
+		if op.Op == "restartS" {
+			_ = w.server.Shutdown()
+			w.server = w.newModule(r.engS, true, func(b *vBuilt) bool { return b.rec.VerifyS })
+		} else {
+			_ = w.client.Shutdown()
+			w.client = w.newModule(r.engC, false, func(b *vBuilt) bool { return b.rec.VerifyC && !w.clientDown })
+		}
+		r.emit(op, w.observe("ok", op.Now))
 	case "dstart":
 		// another poll of the same client (updateService is not serialised): the server answers now, the response stays in flight
 		d := &vDelayed{arrived: make(chan struct{}), release: make(chan struct{}), done: make(chan string, 1)}
@@ -1151,8 +1162,10 @@ func (r *vRunner) history(hist int, nOps int) {
 		case p < 60:
 			quiet++
 			r.exec(vOp{Op: "pollall", Quiet: quiet, Class: "update-all-services"}, nil)
-		case p < 62:
+		case p < 61:
 			r.exec(vOp{Op: "purge", Class: "remove-revoked"}, nil)
+		case p < 62:
+			r.exec(vOp{Op: []string{"restartS", "restartS", "restartC"}[rng.Intn(3)], Class: "node-restart"}, nil)
 		case p < 66:
 			// a second poller: its response is in flight while subjects refresh / retract and the first poller completes polls;
 			// it is applied afterwards (the older response last)
